@@ -33,6 +33,12 @@ struct Case {
     /// reading it fails (or yields other bytes) — a failure that is not a missing name
     #[serde(default)]
     damage: u8,
+    /// spelling of the request at position i = spell[i % len] (empty = every name as stored):
+    /// 0 as stored, 1 ASCII upper case, 2 ASCII lower case, 3 slashes flipped, 4 mixed ASCII case and slashes
+    /// (1–4 name the same member), 5 full Unicode upper case, 6 full Unicode lower case (for a name with
+    /// letters outside ASCII that is another name: a different member or no member at all)
+    #[serde(default)]
+    spell: Vec<u8>,
 }
 
 fn err_kind(e: &wow_mpq::Error) -> String {
@@ -54,13 +60,113 @@ fn params() -> GenParams {
 
 type Slot = Result<Vec<u8>, String>;
 
-fn name_of(case: &Case, r: u16) -> String {
+/// families of the names grid whose members the archive did not keep apart (sequential reads of the stored names)
+static FAMILY_NOT_KEPT_APART: std::sync::Mutex<Vec<String>> = std::sync::Mutex::new(Vec::new());
+
+fn name_of(case: &Case, pos: usize, r: u16) -> String {
     let n = case.spec.files.len();
-    if (r as usize) < n {
-        // alternate spelling for odd positions: lookups are case/slash insensitive
-        case.spec.files[r as usize].name.clone()
-    } else {
-        format!("missing\\{}.none", r as usize - n)
+    let base = if (r as usize) < n { case.spec.files[r as usize].name.clone() } else { format!("missing\\{}.none", r as usize - n) };
+    if case.spell.is_empty() {
+        return base;
+    }
+    match case.spell[pos % case.spell.len()] % 7 {
+        0 => base,
+        1 => base.to_ascii_uppercase(),
+        2 => base.to_ascii_lowercase(),
+        3 => base.chars().map(|c| match c { '/' => '\\', '\\' => '/', c => c }).collect(),
+        4 => spellings(&base, pos as u32).pop().unwrap_or(base),
+        5 => base.to_uppercase(),
+        _ => base.to_lowercase(),
+    }
+}
+
+/// The archive's own name equivalence (ASCII case, slash direction) — only used to label cases and failures.
+fn member_key(name: &str) -> Vec<u8> {
+    vcheck::oracle::refcrypt::fold(name.as_bytes())
+}
+
+/// A deliberately coarse folding of a name (full Unicode case mapping both ways, accents and combining marks
+/// dropped, compatibility forms, blanks/underscores, repeated separators). Two names with different `member_key`
+/// and equal `coarse_key` are *distinct members that a too-coarse name comparison would take for one*. Only used
+/// to label cases and failures, never to decide what a slot must hold (that is the sequential read).
+fn coarse_key(name: &str) -> String {
+    let mut out = String::new();
+    for c in name.chars().flat_map(|c| c.to_uppercase()).flat_map(|c| c.to_lowercase()) {
+        let c = match c {
+            '/' => '\\',
+            '\u{ff01}'..='\u{ff5e}' => char::from_u32(c as u32 - 0xfee0).unwrap_or(c).to_ascii_lowercase(),
+            'ς' => 'σ',
+            'à' | 'á' | 'â' | 'ã' | 'ä' | 'å' => 'a',
+            'ç' => 'c',
+            'è' | 'é' | 'ê' | 'ë' => 'e',
+            'ì' | 'í' | 'î' | 'ï' | 'ı' => 'i',
+            'ñ' => 'n',
+            'ò' | 'ó' | 'ô' | 'õ' | 'ö' => 'o',
+            'ό' => 'ο',
+            'ù' | 'ú' | 'û' | 'ü' => 'u',
+            'ý' | 'ÿ' => 'y',
+            c => c,
+        };
+        if ('\u{300}'..='\u{36f}').contains(&c) || c == ' ' || c == '_' || c == '\u{a0}' || c == '\u{ad}' || c == '\u{200b}' {
+            continue;
+        }
+        if c == '\\' && out.ends_with('\\') {
+            continue;
+        }
+        out.push(c);
+    }
+    out
+}
+
+/// Why slot `i` is wrong, beyond "differs": does it hold what another request of the same call should hold?
+fn slot_diag(names: &[String], want: &[&Slot], i: usize, got: &[u8]) -> &'static str {
+    let mut other = false;
+    for j in 0..names.len() {
+        if j == i || member_key(&names[j]) == member_key(&names[i]) {
+            continue;
+        }
+        if let Ok(d) = want[j] {
+            if d.as_slice() == got {
+                if coarse_key(&names[j]) == coarse_key(&names[i]) {
+                    return "slot-holds-data-of-a-distinct-member-with-confusable-name";
+                }
+                other = true;
+            }
+        }
+    }
+    if other { "slot-holds-data-of-another-request" } else { "" }
+}
+
+/// Families of names that are distinct archive members (they differ under ASCII-case/slash folding) but equal
+/// under some coarser comparison: full Unicode case mapping (simple, expanding, context dependent), canonical
+/// and compatibility equivalence, blanks/underscores, repeated separators, and one name being a prefix of another.
+static FAMILIES: [(&str, &[&str]); 14] = [
+    ("latin-case", &["Sound\\Creature\\\u{c9}lan.wav", "Sound\\Creature\\\u{e9}lan.wav"]),
+    ("expanding-case", &["Interface\\Glues\\Stra\u{df}e.blp", "Interface\\Glues\\Strasse.blp", "Interface\\Glues\\STRA\u{1e9e}E.blp"]),
+    ("cyrillic-case", &["DBFilesClient\\\u{416}\u{443}\u{43a}.dbc", "DBFilesClient\\\u{436}\u{443}\u{43a}.dbc", "DBFilesClient\\\u{416}\u{423}\u{41a}.dbc"]),
+    ("greek-sigma", &["Fonts\\\u{3bf}\u{3b4}\u{3cc}\u{3c2}.ttf", "Fonts\\\u{3bf}\u{3b4}\u{3cc}\u{3c3}.ttf", "Fonts\\\u{39f}\u{394}\u{38c}\u{3a3}.ttf"]),
+    ("canonical-forms", &["Textures\\Caf\u{e9}.blp", "Textures\\Cafe\u{301}.blp", "Textures\\Cafe.blp"]),
+    ("ascii-vs-long-s", &["World\\wmo\\\u{17f}et.wmo", "World\\wmo\\set.wmo"]),
+    ("dotless-i", &["Maps\\\u{131}l\u{131}k.adt", "Maps\\ilik.adt", "Maps\\\u{130}L\u{130}K.adt"]),
+    ("kelvin-sign", &["Spells\\\u{212a}ilo.m2", "Spells\\kilo.m2"]),
+    ("ligature", &["Interface\\AddOns\\\u{fb01}le.toc", "Interface\\AddOns\\file.toc"]),
+    ("fullwidth", &["Data\\\u{ff21}\u{ff42}.txt", "Data\\\u{ff41}\u{ff42}.txt", "Data\\ab.txt"]),
+    ("blanks", &["Data\\my file.bin", "Data\\my  file.bin", "Data\\my_file.bin", "Data\\myfile.bin"]),
+    ("separators", &["Data\\sub\\x.bin", "Data\\\\sub\\x.bin", "Data\\sub\\\\x.bin"]),
+    ("prefixes", &["Character\\Human\\Male.m2", "Character\\Human\\Male.m2.bak", "Character\\Human\\Male.m", "Character\\Human\\Male"]),
+    ("solitary", &["Donn\u{e9}es\\\u{c4}rger \u{e0} la carte.txt", "Sound\\M\u{fc}nchen.ogg"]),
+];
+
+fn family_file(name: &str, k: usize, salt: u32) -> FileSpec {
+    FileSpec {
+        name: name.to_string(),
+        class: ALL_CLASSES[(k + salt as usize) % ALL_CLASSES.len()],
+        // every member of a family has its own length, hence its own content
+        len: LenSpec { halves: (k % 2) as u8, delta: 40 + 3 * k as i16 },
+        seed: 1000 + 17 * salt + k as u32,
+        method: METHODS[(k + salt as usize) % 4],
+        enc: if k % 3 == 2 { Enc::Key } else { Enc::None },
+        locale: 0,
     }
 }
 
@@ -124,7 +230,7 @@ fn check_case(check: &Check, case: &Case, origin: &str) -> CaseResult {
             }
         }
     }
-    let names: Vec<String> = case.requests.iter().map(|&r| name_of(case, r)).collect();
+    let names: Vec<String> = case.requests.iter().enumerate().map(|(i, &r)| name_of(case, i, r)).collect();
     let refs: Vec<&str> = names.iter().map(|s| s.as_str()).collect();
     // sequential oracle
     let mut seq = Archive::open(&path).map_err(|e| engine::Fail::new("open-failed", format!("{e}")))?;
@@ -137,10 +243,53 @@ fn check_case(check: &Check, case: &Case, origin: &str) -> CaseResult {
     }
     let want: Vec<&Slot> = names.iter().map(|n| &cache[n]).collect();
     let any_missing = want.iter().any(|s| s.is_err());
+    // every failing name is one that a coarser comparison would take for a requested name that can be read
+    let missing_confusable = any_missing && {
+        let readable: std::collections::BTreeSet<String> = names.iter().zip(want.iter()).filter(|(_, w)| w.is_ok()).map(|(n, _)| coarse_key(n)).collect();
+        names.iter().zip(want.iter()).filter(|(_, w)| w.is_err()).all(|(n, _)| readable.contains(&coarse_key(n)))
+    };
+    if missing_confusable {
+        check.bump("request_lists_whose_missing_names_are_confusable_with_a_readable_one", 1);
+    }
+    if let Some(fam) = origin.strip_prefix("grid-names:").and_then(|o| o.strip_suffix(":once")) {
+        // the archive keeps the members of the family apart (otherwise the family shows nothing)
+        let distinct: std::collections::BTreeSet<&Vec<u8>> = want.iter().filter_map(|w| w.as_ref().ok()).collect();
+        if any_missing || distinct.len() != names.len() {
+            FAMILY_NOT_KEPT_APART.lock().unwrap().push(fam.to_string());
+        }
+    }
     let has_dup = {
         let mut s = std::collections::BTreeSet::new();
         names.iter().any(|n| !s.insert(n))
     };
+    // shape of the request list with respect to names: the same member asked for under several spellings, and
+    // distinct members (or a member and a missing name) whose names a coarser comparison would take for one
+    let (respell, conf) = {
+        let mut by_member: std::collections::BTreeMap<Vec<u8>, &str> = Default::default();
+        let mut by_coarse: std::collections::BTreeMap<String, Vec<u8>> = Default::default();
+        let (mut respell, mut conf) = (false, false);
+        for n in &names {
+            let mk = member_key(n);
+            if let Some(first) = by_member.get(&mk) {
+                respell |= *first != n.as_str();
+            } else {
+                by_member.insert(mk.clone(), n.as_str());
+            }
+            match by_coarse.get(&coarse_key(n)) {
+                Some(other) => conf |= *other != mk,
+                None => {
+                    by_coarse.insert(coarse_key(n), mk);
+                }
+            }
+        }
+        (respell, conf)
+    };
+    if conf {
+        check.bump("request_lists_with_confusable_distinct_names", 1);
+    }
+    if respell {
+        check.bump("request_lists_with_one_member_under_several_spellings", 1);
+    }
     let nb = if case.batch == 0 { 0 } else { names.len().div_ceil(case.batch) };
     let lc = match names.len() {
         0 => "0",
@@ -151,7 +300,7 @@ fn check_case(check: &Check, case: &Case, origin: &str) -> CaseResult {
         _ => ">5000",
     };
     let class = format!(
-        "{origin}:len{lc}:thr{}:batches{}:skip{}:missing{}:dup{}:cont{}:lf{}:ord{}:dmg{}",
+        "{origin}:len{lc}:thr{}:batches{}:skip{}:missing{}:dup{}:cont{}:lf{}:ord{}:dmg{}:respell{}:conf{}",
         case.threads.min(17),
         nb.min(5),
         case.skip_errors as u8,
@@ -160,9 +309,11 @@ fn check_case(check: &Check, case: &Case, origin: &str) -> CaseResult {
         case.contention as u8,
         case.listfile_mode % 3,
         case.cfg_order % 6,
-        (case.damage > 0) as u8
+        (case.damage > 0) as u8,
+        respell as u8,
+        conf as u8
     );
-    let nontrivial = case.threads >= 2 && nb >= 2 && (has_dup || any_missing);
+    let nontrivial = case.threads >= 2 && nb >= 2 && (has_dup || any_missing || respell || conf);
     check.count(&class, nontrivial);
     check.sample(&format!("{lc}{}{}", case.skip_errors, any_missing), || {
         json!({"files": spec.files.len(), "requests": names.len(), "first_requests": names.iter().take(6).collect::<Vec<_>>(), "threads": case.threads, "batch": case.batch, "skip_errors": case.skip_errors, "missing": any_missing, "dup": has_dup})
@@ -222,7 +373,10 @@ fn check_case(check: &Check, case: &Case, origin: &str) -> CaseResult {
                         (Ok(a), Ok(b)) if a == b => {}
                         (Err(e), Err(k)) if &err_kind(e) == k => {}
                         (a, b) => vfail!(
-                            format!("extract_with_config-slot-differs:{route}"),
+                            match a.as_ref().map(|d| slot_diag(&names, &want, i, d)).unwrap_or("") {
+                                "" => format!("extract_with_config-slot-differs:{route}"),
+                                d => format!("extract_with_config-{d}:{route}"),
+                            },
                             "slot {i} ({:?}) = {:?}, sequential read gives {:?}",
                             names[i],
                             a.as_ref().map(|d| d.len()).map_err(err_kind),
@@ -244,18 +398,28 @@ fn check_case(check: &Check, case: &Case, origin: &str) -> CaseResult {
                 (Ok(g), Some(w)) => {
                     if &g != w {
                         let pos = g.iter().zip(w.iter()).position(|(a, b)| a != b);
+                        // a slot with the requested name and the bytes another request of this call should get
+                        let diag = match pos {
+                            Some(i) if g.len() == w.len() && g[i].0 == w[i].0 => slot_diag(&names, &want, i, &g[i].1),
+                            _ => "",
+                        };
                         vfail!(
-                            format!("{label}-differs-from-sequential"),
-                            "{label}: {} results vs {} expected, first difference at {:?}",
+                            if diag.is_empty() { format!("{label}-differs-from-sequential") } else { format!("{label}-{diag}") },
+                            "{label}: {} results vs {} expected, first difference at {:?}{}",
                             g.len(),
                             w.len(),
-                            pos
+                            pos,
+                            pos.filter(|_| !diag.is_empty()).map(|i| format!(" (request {:?}: {diag})", names[i])).unwrap_or_default()
                         );
                     }
                     Ok(())
                 }
                 (Err(_), None) => Ok(()),
-                (Ok(_), None) => vfail!(format!("{label}-ok-despite-missing-name"), "{label} succeeded although a name is missing"),
+                (Ok(_), None) => vfail!(
+                    format!("{label}-ok-despite-missing-name{}", if missing_confusable { ":confusable-with-a-readable-request" } else { "" }),
+                    "{label} succeeded although a name is missing ({:?})",
+                    names.iter().zip(want.iter()).find(|(_, w)| w.is_err()).map(|(n, _)| n)
+                ),
                 (Err(e), Some(_)) => vfail!(format!("{label}-fails-without-missing-name"), "{label} failed: {e}"),
             }
         };
@@ -689,12 +853,105 @@ fn grid(thorough: bool) -> Vec<Case> {
                             requests[*p] = n + 1;
                         }
                     }
-                    v.push(Case { spec: spec.clone(), requests, n_missing_pool: 3, threads, batch, skip_errors: skip, reps: 1, contention: false, cfg_order: (v.len() % 6) as u8, listfile_mode: ((v.len() / 6) % 3) as u8, damage: if v.len() % 5 == 4 { 1 + (v.len() % 7) as u8 } else { 0 } });
+                    v.push(Case { spec: spec.clone(), requests, n_missing_pool: 3, threads, batch, skip_errors: skip, reps: 1, contention: false, cfg_order: (v.len() % 6) as u8, listfile_mode: ((v.len() / 6) % 3) as u8, damage: if v.len() % 5 == 4 { 1 + (v.len() % 7) as u8 } else { 0 }, spell: vec![] });
                 }
             }
         }
     }
     v
+}
+
+/// Names grid: for every family of confusable names an archive of 6 plain files + the family, and request lists that
+/// put the members of the family into ONE call: each once (both orders), repeated and respelt (ASCII case / slashes:
+/// the same member), and under full Unicode upper/lower case (another member, or no member: a failing slot).
+/// Plus one archive with all families and request lists long enough for the batched path (> 1000 names).
+fn grid_names() -> Vec<(String, Case)> {
+    let mut v = vec![];
+    let base = 6usize;
+    let mk = |spec: &ArchiveSpec, requests: Vec<u16>, spell: Vec<u8>, threads: usize, batch: usize, skip: bool, k: usize| Case {
+        spec: spec.clone(),
+        requests,
+        n_missing_pool: 3,
+        threads,
+        batch,
+        skip_errors: skip,
+        reps: 1,
+        contention: false,
+        cfg_order: (k % 6) as u8,
+        listfile_mode: ((k / 2) % 3) as u8,
+        damage: 0,
+        spell,
+    };
+    for (fi, (kind, fam)) in FAMILIES.iter().enumerate() {
+        let mut spec = fixed_spec(base);
+        for (k, nm) in fam.iter().enumerate() {
+            spec.files.push(family_file(nm, k, fi as u32));
+        }
+        let n = spec.files.len() as u16;
+        let once: Vec<u16> = (0..n).collect();
+        let reverse: Vec<u16> = (0..n).rev().collect();
+        // three rounds over the family (rotated), a plain file between the rounds
+        let mut repeat: Vec<u16> = vec![];
+        for round in 0..3usize {
+            for k in 0..fam.len() {
+                repeat.push((base + (k + round) % fam.len()) as u16);
+            }
+            repeat.push(round as u16);
+        }
+        // stored name, its Unicode upper case, its Unicode lower case — for every member
+        let unicase: Vec<u16> = (0..fam.len()).flat_map(|k| [(base + k) as u16; 3]).chain([0u16, 0, 0]).collect();
+        for (ti, (threads, batch)) in [(4usize, 1usize), (16, 2), (2, 1000)].into_iter().enumerate() {
+            let k = fi * 3 + ti;
+            v.push((format!("grid-names:{kind}:once"), mk(&spec, once.clone(), vec![], threads, batch, k % 2 == 0, k)));
+            v.push((format!("grid-names:{kind}:reverse"), mk(&spec, reverse.clone(), vec![], threads, batch, k % 2 == 1, k)));
+            v.push((format!("grid-names:{kind}:repeat-respelt"), mk(&spec, repeat.clone(), vec![0, 1, 2, 3, 4], threads, batch, k % 2 == 0, k)));
+            for skip in [false, true] {
+                v.push((format!("grid-names:{kind}:unicode-case"), mk(&spec, unicase.clone(), vec![0, 5, 6], threads, batch, skip, k)));
+            }
+        }
+    }
+    // all families in one archive; request lists beyond 1000 names
+    let mut spec = fixed_spec(base);
+    for (fi, (_, fam)) in FAMILIES.iter().enumerate() {
+        for (k, nm) in fam.iter().enumerate() {
+            spec.files.push(family_file(nm, k + fi, fi as u32));
+        }
+    }
+    let n = spec.files.len();
+    for (ti, (threads, batch)) in [(4usize, 10usize), (16, 3)].into_iter().enumerate() {
+        let all: Vec<u16> = (0..1100 + 7 * ti).map(|i| ((i * 5 + i / n) % n) as u16).collect();
+        v.push(("grid-names:all-families:long".to_string(), mk(&spec, all.clone(), vec![], threads, batch, ti == 0, ti)));
+        v.push(("grid-names:all-families:long-respelt".to_string(), mk(&spec, all.clone(), vec![0, 1, 2, 3, 4, 0, 3], threads, batch, ti == 1, ti)));
+        for skip in [false, true] {
+            v.push(("grid-names:all-families:long-unicode-case".to_string(), mk(&spec, all.clone(), vec![0, 0, 0, 5, 0, 6, 0], threads, batch, skip, ti)));
+        }
+    }
+    v
+}
+
+/// Random strategy: put some families of confusable names into a generated archive (`plant` selects them; the
+/// members take over the shape of generated files but get their own lengths) and steer a third of the requests to them.
+fn plant_families(spec: &mut ArchiveSpec, plant: &[u16]) -> Vec<usize> {
+    let mut planted = vec![];
+    for (j, &sel) in plant.iter().enumerate() {
+        let (_, fam) = FAMILIES[sel as usize % FAMILIES.len()];
+        for (k, nm) in fam.iter().enumerate() {
+            if spec.files.iter().any(|f| member_key(&f.name) == member_key(nm)) {
+                continue;
+            }
+            let mut f = family_file(nm, k, sel as u32 + j as u32);
+            if let Some(model) = spec.files.get(j + k) {
+                f.class = model.class;
+                f.method = model.method;
+                f.enc = model.enc;
+                f.locale = model.locale;
+                f.len.halves = model.len.halves.min(2);
+            }
+            planted.push(spec.files.len());
+            spec.files.push(f);
+        }
+    }
+    planted
 }
 
 fn main() {
@@ -705,8 +962,13 @@ fn main() {
          skip_errors on/off; grid over request lengths {0,1,b−1,b,b+1,2b,999,1000,1001,1500,5001} × missing position {none, first, middle, last} × skip × 4 (threads,batch) \
          pairs. Oracle: one sequential Archive handle. Interfaces: extract_with_config (both code paths), ParallelArchive::{extract_files_parallel, extract_files_batched, \
          process_files_parallel, extract_matching_parallel}, parallel::{extract_from_multiple_archives, extract_multiple_from_multiple_archives, search_in_multiple_archives}. \
-         Random cases are repeated (2–3 times, odd repetitions under 16 busy threads). non-trivial = ≥2 threads, ≥2 batches and a duplicate or missing name; \
-         distinct = length class × threads × batches × skip × missing × dup × contention",
+         Random cases are repeated (2–3 times, odd repetitions under 16 busy threads). non-trivial = ≥2 threads, ≥2 batches and a duplicate, missing, respelt or confusable name; \
+         distinct = length class × threads × batches × skip × missing × dup × contention × respell × conf. \
+         Names: request positions carry a spelling (as stored / ASCII upper / lower / flipped slashes / mixed: the same member; full Unicode upper / lower case: \
+         for names with letters outside ASCII another member or none), and archives hold families of confusable names — distinct members equal under a coarser \
+         comparison than the archive's (Unicode case incl. expanding and special mappings, canonical/compatibility forms, blanks, repeated separators, prefixes); \
+         names grid = 14 families × {once, reverse, repeated+respelt, Unicode-cased} × 3 (threads,batch) + an all-families archive with > 1000 requests; \
+         respell = one member under several spellings in one call, conf = two requested names that are distinct members (or member and missing name) yet coarse-equal",
     );
     check.assume("thread count 0 and batch size 0 are outside the stated domain");
     check.assume("the schedule is rayon's; independence from scheduling is supported by repetition under contention, not proved");
@@ -731,6 +993,13 @@ fn main() {
         }
     }
     check.set_extra("grid_cases", json!(g.len()));
+    let gn = grid_names();
+    for (origin, c) in &gn {
+        if let Err(f) = check_case(&check, c, origin) {
+            check.fail(&f, serde_json::to_value(c).unwrap());
+        }
+    }
+    check.set_extra("names_grid_cases", json!(gn.len()));
 
     let n = check.tier.pick(160u32, 4000);
     let reps = check.tier.pick(2u8, 5);
@@ -750,11 +1019,24 @@ fn main() {
                 0u8..6,
                 prop_oneof![2 => Just(0u8), 1 => Just(1u8), 1 => Just(2u8)],
                 prop_oneof![3 => Just(0u8), 1 => 1u8..9],
+                // names: families of confusable names planted into the archive, and a spelling per request position
+                (
+                    prop_oneof![3 => Just(vec![]), 2 => proptest::collection::vec(any::<u16>(), 1..=3)],
+                    prop_oneof![
+                        3 => Just(vec![]),
+                        2 => proptest::collection::vec(0u8..5, 1..8),
+                        2 => proptest::collection::vec(prop_oneof![3 => Just(0u8), 1 => 1u8..5, 2 => 5u8..7], 1..8),
+                    ],
+                ),
             )
-                .prop_map(move |(spec, sel, threads, batch, skip_errors, contention, cfg_order, listfile_mode, damage)| {
+                .prop_map(move |(mut spec, sel, threads, batch, skip_errors, contention, cfg_order, listfile_mode, damage, (plant, spell))| {
+                    let planted = plant_families(&mut spec, &plant);
                     let pool = spec.files.len() + 3;
-                    let requests = sel.iter().map(|&s| pt::pick_idx(s, pool) as u16).collect();
-                    Case { spec, requests, n_missing_pool: 3, threads, batch, skip_errors, reps, contention, cfg_order, listfile_mode, damage }
+                    let requests = sel
+                        .iter()
+                        .map(|&s| if !planted.is_empty() && s % 3 == 0 { planted[pt::pick_idx(s / 3, planted.len())] as u16 } else { pt::pick_idx(s, pool) as u16 })
+                        .collect();
+                    Case { spec, requests, n_missing_pool: 3, threads, batch, skip_errors, reps, contention, cfg_order, listfile_mode, damage, spell }
                 })
         },
         |c| serde_json::to_value(c).unwrap(),
@@ -762,6 +1044,20 @@ fn main() {
     );
     if check.classes_with_prefix("grid:len1001-5000") == 0 || check.classes_with_prefix("grid:len100-1000") == 0 {
         check.inconclusive("grid did not reach both extraction code paths");
+    }
+    for (kind, _) in FAMILIES.iter() {
+        if check.classes_with_prefix(&format!("grid-names:{kind}:")) == 0 {
+            check.inconclusive(&format!("names grid: no case of the family {kind:?} was evaluated (the archive could not be built)"));
+        }
+    }
+    if check.classes_with_prefix("grid-names:all-families:long") == 0 {
+        check.inconclusive("names grid: the archive with all families was not evaluated");
+    }
+    {
+        let apart = FAMILY_NOT_KEPT_APART.lock().unwrap();
+        if !apart.is_empty() {
+            check.inconclusive(&format!("names grid: sequential reads of the stored names do not give every member of the families {apart:?} its own content, so these families show nothing"));
+        }
     }
     check.finish();
 }
